@@ -55,29 +55,33 @@ def verify(name):
     print(name, {k: v for k, v in res.items() if k != 'demo_output_with_change'})
 
 def run(name, ids):
+    """runs the quick checks against a scratch worktree of /repo with the change applied (PE2_REPO), writing
+    evidence and replays to a scratch directory, so that neither /repo nor /verif's own evidence is touched"""
     d = os.path.join(S, name)
     meta = json.load(open(os.path.join(d, 'meta.json')))
     ids = ids or [meta['property']]
-    assert sh('git -C /repo status --porcelain -- src').stdout.strip() == '', '/repo has local changes'
-    a = sh('git -C /repo apply %s' % os.path.join(d, 'patch.diff'))
-    assert a.returncode == 0, a.stderr
+    wt = '/tmp/seedrun_' + name; outd = '/tmp/seedout_' + name
+    sh('git -C /repo worktree remove --force %s' % wt); shutil.rmtree(wt, ignore_errors=True); shutil.rmtree(outd, ignore_errors=True)
+    r = sh('git -C /repo worktree add -q --detach %s HEAD' % wt); assert r.returncode == 0, r.stderr
     out = {}
     try:
+        a = sh('git -C %s apply %s' % (wt, os.path.join(d, 'patch.diff')))
+        assert a.returncode == 0, a.stderr
+        os.makedirs(outd)
         for pid in ids:
             t0 = time.time()
-            r = sh('cd %s && python3 harness/check.py %s --tier quick' % (V, pid), timeout=3000)
+            r = sh('cd %s && PE2_REPO=%s PE2_OUT=%s python3 harness/check.py %s --tier quick' % (V, wt, outd, pid), timeout=3000)
             lines = [l for l in r.stdout.split('\n') if l.startswith('VIOLATION')]
             out[pid] = dict(exit=r.returncode, violations=lines[:3], wall_s=round(time.time() - t0, 1))
             print(name, pid, 'exit', r.returncode, lines[:2])
-            # keep the first replay report as an explanation
             if lines:
                 rp = lines[0].split('replay=')[1].split(' ')[0]
                 try:
-                    out[pid]['why'] = json.load(open(os.path.join(V, rp, 'report.json'))).get('why', '')[:400]
+                    out[pid]['why'] = json.load(open(os.path.join(outd, rp, 'report.json'))).get('why', '')[:400]
                 except Exception:
                     pass
     finally:
-        sh('git -C /repo checkout -- .')
+        sh('git -C /repo worktree remove --force %s' % wt); shutil.rmtree(wt, ignore_errors=True); shutil.rmtree(outd, ignore_errors=True)
     meta.setdefault('detected_by', {}).update(out)
     json.dump(meta, open(os.path.join(d, 'meta.json'), 'w'), indent=1)
 
